@@ -116,6 +116,21 @@ def analyze(ctx, rules):
                 continue            # the first n elements of an endless generator: n elements, nothing is dropped
             for o, _ in _owners_or_self(F, fn):
                 sites.setdefault((o.name, kind), []).append(fn.loc(bb))
+        # `flat_map` / `flatten` over a Result or an Option keeps the Ok / Some payloads and silently drops every Err / None
+        # (an error swallowed on the way — seed C04n); over nested collections they keep every element and are not listed
+        for bb, t in fn.calls(r"iter::Iterator>::(flat_map|flatten)(::<.*>)?$"):
+            if t.get("exp_outer") in ("debug_assert!", "trace!", "debug!", "info!", "warn!", "error!", "assert!", "debug_assert_eq!"):
+                continue
+            nm_ = M.call_name(t)
+            kind = "flat_map" if "flat_map" in nm_ else "flatten"
+            if kind == "flat_map":
+                drops = re.search(r"flat_map::<(std|core)::(result::Result|option::Option)<", nm_) is not None
+            else:
+                tys = " ".join(t.get("callee_targs") or []) + " " + (t.get("callee_self") or "")
+                drops = re.search(r"(Iter|IntoIter|IterMut)<('_, )?(std|core)::(result::Result|option::Option)<", tys) is not None
+            if drops:
+                for o, _ in _owners_or_self(F, fn):
+                    sites.setdefault((o.name, kind + " over Result/Option"), []).append(fn.loc(bb))
     adv = {}
     for fn in F.fns.values():
         if is_derived(fn):
